@@ -111,8 +111,12 @@ func repoClass(t *rapid.T) (jgen.File, []string) {
 		}
 		methods = append(methods, shopPkg+".OrderRepo."+names[i])
 	}
-	if rapid.Bool().Draw(t, "repoOverload") {
+	switch rapid.IntRange(0, 3).Draw(t, "repoOverload") {
+	case 1, 2:
 		w.f("    public Order find(String key) {\n        return this.find(1);\n    }\n\n")
+	case 3:
+		// two overloads written on one source line (compact style): equal start lines
+		w.f("    public Order find(String key) { return this.find(1); } public Order find(long key, int n) { this.count(); return null; }\n\n")
 	}
 	w.f("}\n")
 	return jgen.File{Path: "com/acme/shop/OrderRepo.java", Text: w.b.String()}, methods
@@ -549,7 +553,19 @@ func modelReports(deps []core_domain.CodeDataStruct, identMap map[string]core_do
 	out = append(out, guard("count", func() []report {
 		callMap := count.BuildCallMap(deps)
 		sorted := string_helper.SortWord(callMap)
-		return []report{{"count", js(sorted), canonCountMap(callMap)}, {"count-sorted-table", js(sorted), canonPairs(sorted)}}
+		out := []report{{"count", js(sorted), canonCountMap(callMap)}, {"count-sorted-table", js(sorted), canonPairs(sorted)}}
+		// `coca count -t 2` prints the first two rows of the table: as a collection they
+		// must not depend on the run, whatever the table is sorted by
+		if len(sorted) > 2 {
+			var top []string
+			for _, p := range sorted[:2] {
+				top = append(top, fmt.Sprintf("%s = %d", p.Key, p.Value))
+			}
+			out = append(out, report{"count-top-2", js(sorted[:2]), multiset(top)})
+		} else {
+			out = append(out, report{"count-top-2", "", ""})
+		}
+		return out
 	})...)
 	// concept table
 	out = append(out, guard("concept-table", func() []report {
@@ -644,6 +660,19 @@ func checkJava(c JavaCase) pbt.Verdict {
 			out := []report{{"bad-smell-model", js(infos), canonTypes(infos)},
 				{"bad-smells", js(smells), multiset(smellItems(smells))},
 				{"bad-smells-by-type", rawGroups.String(), canonSmellGroups(groups)}}
+			// the class lists the connected-call detector is fed with (the detector itself is the
+			// third-party package left out above): per type, the project types it calls, a collection
+			known := map[string]bool{}
+			for _, n := range *infos {
+				known[n.GetClassFullName()] = true
+			}
+			var called []string
+			for _, n := range *infos {
+				list := append([]string(nil), bs_domain.GetCalledClasses(n, known)...)
+				sort.Strings(list)
+				called = append(called, fmt.Sprintf("%s calls %q", n.GetClassFullName(), list))
+			}
+			out = append(out, report{"bad-smell-called-classes", "", multiset(called)})
 			if len(c.Ignore) > 0 {
 				// `coca bs -x kind1,kind2`: same analysis, some kinds left out
 				kept := dropGraphSmell(bsApp.IdentifyBadSmell(infos, append([]string(nil), c.Ignore...)))
